@@ -674,6 +674,24 @@ func (fx *FuncExec) loopHead(st *State, ls loopSpec, pos token.Pos, bodyPos toke
 		}
 	}
 	head := st.clone()
+	// heap first: typing facts of havocked locals must refer to the NEW allocation state
+	var cs []string
+	for _, c := range fx.reg.comps {
+		if modComps[c] {
+			cs = append(cs, c)
+		}
+	}
+	oldAl := map[string]string{}
+	for _, c := range cs {
+		if strings.HasPrefix(c, "AL_") {
+			oldAl[c] = head.vars[c]
+			if oldAl[c] == "" {
+				oldAl[c] = fx.h0(c)
+			}
+		}
+	}
+	fx.havocHeap(head, cs)
+	fx.allocMonotone(head, oldAl)
 	var mvs []*types.Var
 	for v := range modLoc {
 		mvs = append(mvs, v)
@@ -692,26 +710,6 @@ func (fx *FuncExec) loopHead(st *State, ls loopSpec, pos token.Pos, bodyPos toke
 	}
 	for _, k := range ghostKeys {
 		head.vars[k] = fx.fresh(shortKey(k), fx.varSort[k])
-	}
-	var cs []string
-	for _, c := range fx.reg.comps {
-		if modComps[c] {
-			cs = append(cs, c)
-		}
-	}
-	// allocation only grows
-	oldAl := map[string]string{}
-	for _, c := range cs {
-		if strings.HasPrefix(c, "AL_") {
-			oldAl[c] = fx.H(head, c)
-			delete(fx.used, c)
-		}
-	}
-	fx.havocHeap(head, cs)
-	for _, c := range sortedStrKeys(oldAl) {
-		o := oldAl[c]
-		srt := strings.TrimPrefix(c, "AL_")
-		head.assume(fmt.Sprintf("(forall ((r %s)) (=> (select %s r) (select %s r)))", srt, o, head.vars[c]))
 	}
 	for _, inv := range ls.invs {
 		env := fx.specEnv(head, fx.entry, bodyPos, fmt.Sprintf("loop %d invariant", ls.ord))
